@@ -205,8 +205,8 @@ pub fn run(ctx: &mut Ctx) {
     let v1 = vocab::v1(false);
     let f = factory_noslice(&v1).unwrap();
     let f_sliced = factory(&v1, &FactoryOpts::default()).unwrap();
-    let nl = ctx.pick(18, 66);
-    let nj = ctx.pick(13, 50);
+    let nl = ctx.pick(26, 66);
+    let nj = ctx.pick(18, 50);
     // enumerate all (m, n) pairs; idx = pair index
     let mut pairs: Vec<(usize, Option<usize>, bool)> = vec![];
     for n in 0..=nl {
